@@ -14,7 +14,7 @@ use chess::evaluate::{game_ending, player_is_in_check, GameEnding};
 use chess::move_generator::MoveGenerator;
 
 use crate::eng::*;
-use crate::gen::{choose_move, choose_start, Policy, StartKind};
+use crate::gen::{choose_move, choose_move_seen, choose_start, Policy, Seen, StartKind};
 use crate::model::{move_effect, verdict, Mv, Pos, Side, Verdict, ALL_P, BK, BQ, P, WK, WQ};
 use crate::plan::{Op, Outcome, Plan, Stats, Violation};
 use crate::prng::{mix, Digest, Rng};
@@ -79,7 +79,7 @@ fn cfg_for(property: &str, tier: Tier) -> GenCfg {
         "C02" => GenCfg {
             starts: all_starts,
             lrus: vec![1, 2, 7, 64, 4096, 100_000],
-            policies: vec![Policy::Spicy, Policy::Spicy, Policy::Uniform, Policy::Shuffle],
+            policies: vec![Policy::Spicy, Policy::Spicy, Policy::Uniform, Policy::Shuffle, Policy::Lookalike],
             min_len: 30,
             max_len: if thorough { 260 } else { 140 },
             weights: [40, 22, 22, 8, 0, 4, 0, 0, 4],
@@ -115,7 +115,7 @@ fn cfg_for(property: &str, tier: Tier) -> GenCfg {
         "C06" => GenCfg {
             starts: vec![(StartKind::Special, 4), (StartKind::Endgame, 3), (StartKind::Random, 4), (StartKind::Suite, 2), (StartKind::Initial, 1)],
             lrus: vec![1, 7, 64, 4096],
-            policies: vec![Policy::Hunt, Policy::Hunt, Policy::Spicy, Policy::Uniform],
+            policies: vec![Policy::Hunt, Policy::Hunt, Policy::Spicy, Policy::Uniform, Policy::Lookalike],
             min_len: 20,
             max_len: 90,
             weights: [40, 14, 0, 0, 22, 16, 0, 0, 0],
@@ -151,7 +151,7 @@ fn cfg_for(property: &str, tier: Tier) -> GenCfg {
         "C17" => GenCfg {
             starts: vec![(StartKind::Initial, 3), (StartKind::Special, 3), (StartKind::Endgame, 2), (StartKind::Random, 2)],
             lrus: vec![4096],
-            policies: vec![Policy::Shuffle, Policy::Shuffle, Policy::Shuffle, Policy::Spicy],
+            policies: vec![Policy::Shuffle, Policy::Shuffle, Policy::Lookalike, Policy::Lookalike, Policy::Spicy],
             min_len: 20,
             max_len: if thorough { 200 } else { 90 },
             weights: [60, 25, 0, 0, 6, 0, 0, 0, 0],
@@ -275,6 +275,7 @@ pub fn gen_plan(property: &str, seed: u64, index: u64, tier: Tier) -> Plan {
         let len = rng.range(cfg.min_len, cfg.max_len);
         let mut stack: Vec<Pos> = vec![start.clone()];
         let mut own: Vec<Option<Mv>> = vec![None, None]; // last move per side
+        let mut seen = Seen::default();
         let mut own_stack: Vec<(usize, Option<Mv>)> = Vec::new();
         while ops.len() < len {
             let pos = stack.last().unwrap().clone();
@@ -303,7 +304,7 @@ pub fn gen_plan(property: &str, seed: u64, index: u64, tier: Tier) -> Plan {
                         continue;
                     }
                     let side = pos.stm as usize;
-                    let k = choose_move(&mut rng, &pos, &legal, policy, own[side].as_ref());
+                    let k = choose_move_seen(&mut rng, &pos, &legal, policy, own[side].as_ref(), &mut seen);
                     ops.push(Op::Make(k as u32));
                     own_stack.push((side, own[side]));
                     own[side] = Some(legal[k]);
